@@ -70,6 +70,18 @@ CHECKS = [
   'note': 'Assumes atomic LevelDB batches/puts and that completed file writes survive process death (no power loss). '
           'Trusted: as C01; crash counterexamples are replayed on real LevelDB/files with the same operation counter.',
   'design_ref': 'DESIGN.md section 4, C04'},
+ {'id': 'C05',
+  'text': 'The real asynchronous shell (fetch_and_process_blocks, reorg_chain, _calc_reorg_range, backup_block, '
+          'flush_backup) runs on an asyncio loop against a fake daemon serving a block tree; the crash point is a '
+          'symbolic integer over the durable operations performed once the reorganisation starts; after restart the '
+          'daemon stays on the new branch, is back on the extended old branch, or (forced reorg) never changed; once '
+          'idle the index is proved equal to the reference of the daemon\'s chain on every path.  The cut between the '
+          'history-rollback batch and the UTXO-rollback batch with a continuation that does not re-detect the fork is '
+          'a recorded known finding (three signatures); every other cut x continuation must pass.',
+  'note': 'As C04, plus: daemon RPCs, block prefetch (FakeODB) and the poll sleep are stubs (vlib/shell.py); worker '
+          'threads run inline.  Outside: two crashes, forks deeper than 3, scenarios violating the property\'s '
+          'height >= 2 x depth proviso.',
+  'design_ref': 'DESIGN.md section 4, C05'},
 ]
 _TODO = 'check not built yet in this revision (planned, see DESIGN.md section 4); no claim is made'
-NOT_APPLICABLE = [{'property_id': f'C{n:02d}', 'reason': _TODO} for n in range(1, 20) if n not in (1, 2, 3, 4, 12, 13)]
+NOT_APPLICABLE = [{'property_id': f'C{n:02d}', 'reason': _TODO} for n in range(1, 20) if n not in (1, 2, 3, 4, 5, 12, 13)]
